@@ -103,3 +103,41 @@ for _i, _grp in enumerate(_KN_GROUPS):
            'VectorHelper::linearCombinationInPlace: empty',
            'AMatrix::prodMatVec, AMatrixDense::prodMatVec, VectorHelper::sample: return a vector of one element',
            'MatrixRectangular::sample, MatrixSquareSymmetric::sample: return a fresh 1x1 matrix'])
+
+# C10.f  KrigingSystem::estimate: the kept left-hand side of the previous target is reused only after a target that succeeded with the same neighbours
+_EST_TUS = ['src/Estimation/KrigingSystem.cpp', 'src/Neigh/ANeigh.cpp', 'src/Basic/Utilities.cpp', 'src/Basic/VectorHelper.cpp', 'src/Enum/Enums.cpp',
+            'src/Matrix/AMatrix.cpp', 'src/Matrix/AMatrixDense.cpp', 'src/Matrix/AMatrixSquare.cpp', 'src/Matrix/MatrixSquareSymmetric.cpp',
+            'src/Matrix/MatrixRectangular.cpp', 'src/Matrix/MatrixSquareGeneral.cpp', 'src/Space/ASpaceObject.cpp', 'src/Tree/Ball.cpp',
+            'src/Basic/AStringable.cpp', 'src/Basic/ASerializable.cpp']
+_EST_STUBS = ['KrigingSystem::_prepar: counts, fails under a symbolic bit; KrigingSystem::_rhsCalcul: counts, fails under a symbolic bit',
+              'KrigingSystem::_dualCalcul, _rhsIsoToHetero, _wgtCalcul, _setLocalModel, _bayesCorrectVariance: count',
+              'KrigingSystem::_estimateCalcul, _estimateCalculImage, _estimateCalculXvalidUnique, _simulateCalcul, _neighCalcul: record the status they receive',
+              'KrigingSystem::_rhsDump, _wgtDump, _saveWeights, _transformGaussianToRaw, _krigingDump, _simulateDump: empty',
+              'TNeigh (test subclass of ANeigh): getNeigh returns the rank list of the scenario (arbitrary content); hasChanged: true when nothing is memorised (as every concrete '
+              'neighbourhood), else arbitrary; getType: MOVING or UNIQUE; getFlagContinuous: arbitrary; getMaxSampleNumber: not called',
+              'Db::isSampleIndexValid, Db::isActive: true', 'OptDbg::query, OptDbg::force: false (no debug option set)',
+              'messerr, message, messageAbort, mestitle, db_sample_print: empty', 'ASpaceObject(const ASpace*), ~ASpaceObject: no default-space cloning', 'Ball::Ball(data,...): no tree built',
+              'memcmp (solver build): int-wise loop (operator== of std::vector<int>)', 'other callbacks of harness/C01/ks_common.h: not reached']
+_EST_ASSUME = ['KrigingSystem, Db are raw storage with only the fields read initialised (harness/C01/ks_common.h); _isReady true, _flagNeighOnly / _flagAnam / _flagFactorKriging false, '
+               '_flagBayes, _flagDataChanged, _flagStd, _flagVarZ, _flagSimu, _flagWeights, _flagKeypairWeights, _flagGlobal, cross-validation flag arbitrary',
+               'memo pre-state: sorted (representation invariant), consistent with the kept system (a memo left by earlier successful targets)',
+               'ENeigh items get their enum values in the solver build (static constructors are not run)']
+_EST_WHAT = ('KrigingSystem::estimate (+ _setInternalShortCutVariablesNeigh, getNech, getNeq) with the real ANeigh::select, _isSameTarget, _checkUnchanged, _updateColCok, setIsChanged, isUnchanged: '
+             'after a target that failed (no neighbour, or _prepar failed) the next target that has neighbours runs _prepar and _dualCalcul again; _prepar is skipped only after a target that did not fail '
+             'and only when the neighbours left in _nbgh are, as a set, those of that previous target')
+for _t, _tn in ((0, 'moving'), (1, 'unique'), (2, 'xvalid')):
+    K('C10.f.%s' % _tn, property='C10', engine='symex', harness='C10/estimate.cpp', entries=['k_pair_t%d_a%d_f%d' % (_t, _a, _f) for _a in range(7) for _f in range(3)], tus=_EST_TUS,
+      bounds={'quick': '%s neighbourhood; two consecutive targets; memo before the first: empty or 2 arbitrary ranks, arbitrary memorised target and flag; each target: the memorised target again / another target '
+                       'with hasChanged true / false, getNeigh returns 0 or 2 arbitrary ranks (the memorised set in another order, or a different set); first target: all stages succeed / _prepar fails / '
+                       '_rhsCalcul fails; second target: arbitrary failures; continuous flag on / off; rank values, target ranks in [0,1000] and the other flags symbolic'
+                       % {'moving': 'moving', 'unique': 'unique', 'xvalid': 'unique, cross-validation option,'}[_tn]},
+      timeout_ms={'quick': 60000, 'thorough': 600000}, validate={'quick': 4, 'thorough': 20},
+      what=_EST_WHAT,
+      out='what the stages compute (C01); image neighbourhood (no selection in estimate); _flagNeighOnly; collocated option; a failing right-hand side stage (C10.f.rhs); lists of other lengths',
+      assumptions=_EST_ASSUME, stubs=_EST_STUBS)
+K('C10.f.rhs', property='C10', engine='symex', harness='C10/estimate.cpp', entries=['k_rhs_t0_a1', 'k_rhs_t0_a5', 'k_rhs_t1_a1', 'k_rhs_t1_a5'], tus=_EST_TUS,
+  bounds={'quick': 'one target with 2 arbitrary neighbours (first target after an empty memo / same set as the memo); moving or unique neighbourhood; the right-hand side stage fails, the preparation fails or not'},
+  timeout_ms={'quick': 60000, 'thorough': 600000}, validate={'quick': 4, 'thorough': 20},
+  what='KrigingSystem::estimate: when _rhsCalcul reports a failure (undefined drift value at the target: the right-hand side keeps rows of the previous target) the read-out stage receives a '
+       'non-zero status (results of the target undefined) instead of computing from the partly updated right-hand side',
+  out='as C10.f', assumptions=_EST_ASSUME, stubs=_EST_STUBS)
